@@ -447,9 +447,13 @@ def e_change_enum(pkg, r):
         return None
     di, d = c
     lo, hi = INT_RANGE[d.base_prim]
-    k = r.randrange(3)
+    k = r.randrange(4)
     d.explicit_values = True
-    if k == 0 and len(d.values) >= 2:
+    if k == 3:
+        # the same symbols, values and base, but an enum becomes flags or flags become an enum
+        d.flags = not d.flags
+        what = "enum<->flags"
+    elif k == 0 and len(d.values) >= 2:
         d.values = list(d.values[:-1])
         what = "remove-symbol"
     elif k <= 1 and len(d.values) >= 1:
